@@ -309,19 +309,29 @@ class C11(Check):
     def run_mpi_case(self, idx, case):
         w = [int(x) for x in case.split()[1:5]]
         ok, ranks = False, {}
-        # a run is believed when it terminated everywhere, or when it was seen to hang twice (second time with a larger
-        # limit); a run in which some rank printed nothing (mpiexec start-up stalled under machine load) is repeated
-        hangs = 0
-        for attempt in range(4):
+        tot = lambda k: sum(v[1].get(k, 0) for v in ranks.values())  # noqa: E731
+        # A run is believed when it terminated everywhere with every consumer executed, or when the same kind of
+        # failure was seen twice (a hang the second time with a larger limit).  A run in which some rank printed
+        # nothing (mpiexec start-up stalled under machine load) is repeated.  Failures that do not repeat are
+        # recorded in _work/C11-unrepeated.log (see notes/findings/C11-early-termination-under-load.md).
+        seen = {}
+        for attempt in range(5):
             ranks = self.run_mpi_once(w, self.mpi_limit * (1 + attempt), "c%d" % idx)
             ok = len(ranks) == w[0] and all(v[0] == "OK" for v in ranks.values())
-            if ok:
+            if len(ranks) != w[0]:
+                continue
+            kind = "good" if ok and tot("cons") == w[2] and tot("starts") == tot("ends") else ("early" if ok else "hang")
+            if kind == "good":
                 break
-            if len(ranks) == w[0]:
-                hangs += 1
-                if hangs >= 2:
-                    break
-        tot = lambda k: sum(v[1].get(k, 0) for v in ranks.values())  # noqa: E731
+            seen[kind] = seen.get(kind, 0) + 1
+            try:
+                with open(os.path.join(vcheck.WORK, "C11-unrepeated.log"), "a") as f:
+                    f.write("%s attempt %d %s: %s\n" % (case, attempt, kind, "; ".join(
+                        "R%d %s %s" % (r, v[0], " ".join("%s=%d" % kv for kv in sorted(v[1].items()))) for r, v in sorted(ranks.items()))))
+            except OSError:
+                pass
+            if seen[kind] >= 2:
+                break
         return "mpi term=%d ranks=%d sent=%d started=%d recv=%d cons=%d errors=%d" % (
             1 if ok else 0, len(ranks), tot("starts"), tot("rstarts"), tot("ends"), tot("cons"), tot("errors"))
 
